@@ -221,6 +221,11 @@ package api
 //@   modifies @PUBLISH, world, held
 //@ iface api.BindingManagerInterface.RemoveBindingsForDevice
 //@   modifies @PUBLISH, world, held
+// per-entity registry cleanup requests (C10): pen calls so far of RemoveSubscriptionsForEntity / RemoveBindingsForEntity,
+// pemgr[k] the registry, peent[k] the entity
+//@ ghost pen int
+//@ ghost pemgr map[int]any
+//@ ghost peent map[int]api.EntityRemoteInterface
 //@ iface api.DeviceLocalInterface.CleanRemoteEntityCaches
 //@   ensures casn == old(casn) + 1 && caskind == store(old(caskind), old(casn), 3) && casaddr == store(old(casaddr), old(casn), remoteAddress) && casat == store(old(casat), old(casn), ren)
 //@   modifies world, held, casn, caskind, casaddr, casat
